@@ -63,6 +63,13 @@ fn main() {
             println!("{}", "日".repeat(30000));
             eprintln!("{}x", "é".repeat(40000));
         }
+        if let Some(sig) = plan.get("signal").and_then(Value::as_i64) {
+            // the command does not exit with a code at all: it dies from a signal
+            unsafe {
+                libc::kill(libc::getpid(), sig as i32);
+            }
+            std::thread::sleep(std::time::Duration::from_secs(5));
+        }
         eprintln!("stand-in: scripted failure of `{kind}`");
         std::process::exit(plan.get("exit").and_then(Value::as_i64).unwrap_or(1) as i32);
     }
